@@ -290,7 +290,7 @@ def environment(ctx, prog, X):
             okidx = len(consts) == 1 and strip_casts(consts[0]) == ('const', 0) and len(steps) == 1 and \
                 strip_casts(steps[0])[1] == 'add' and strip_casts(strip_casts(steps[0])[3]) == ('const', 1)
     ctx.ob('C22.env', 'getenv() walks ev_name[] from index 0 upwards', f.loc(ge[0]), ok and okidx, render(a))
-    tk = list(f.calls('strtok'))
+    tk = list(f.calls('strtok')) + list(f.calls('strtok_r'))       # (same splitting semantics)
     if len(tk) != 2:
         broken('opts_setup(): the strtok(value, envsep) / strtok(0, envsep) idiom was replaced (found %d strtok calls); '
                'a hand-written tokenizer is outside what this checker can decide' % len(tk))
@@ -327,7 +327,7 @@ def environment(ctx, prog, X):
         for i in in_env[0].block.insns:
             if i.op == 'store' and addr_key(P.addr(i.ops[1])).endswith('.val'):
                 v = strip_casts(P.expr(i.ops[0]))
-                okv = v[0] == 'phi' and all(strip_casts(x)[0] == 'call' and strip_casts(x)[1] == 'strtok'
+                okv = v[0] == 'phi' and all(strip_casts(x)[0] == 'call' and strip_casts(x)[1] in ('strtok', 'strtok_r')
                                             for x, _ in P.phi_inputs(v))
     ctx.ob('C22.env', 'each environment token becomes one argument', f.loc(in_env[0]) if in_env else f.loc(), okv, '')
     # argv loop starts at 1
